@@ -27,6 +27,7 @@ class RefBlockServer(Peer):
         self.violations = []     # what the *client* did wrong on the wire
         self.seen = {}
         self.b2szx = {}          # src -> szx used in the first Block2 response
+        self.first_opts = {}     # src -> options of the request that opened the Block2 transfer (Block1/Block2/Size1/Size2 aside)
         self.log = []
         self.size1 = []
 
@@ -115,6 +116,12 @@ class RefBlockServer(Peer):
         # ---- the response side (Block2)
         rcode = 69 if code in (1, 5) else 68
         rep = self.rep
+        plain = sorted((n, v) for n, v in options if n not in (23, 27, 60, 28))
+        if b2 is None or rc.unblock(b2)[0] == 0:
+            self.first_opts[src] = plain
+        elif src in self.first_opts and plain != self.first_opts[src]:
+            # RFC 7959 section 2.7 / 3: the requests for the further blocks are the same request (same options: they form the cache key)
+            self.viol("Block2 follow-up is not the same request: options %r instead of %r" % (plain, self.first_opts[src]), msg)
         if b2 is not None:
             num, _, szx = rc.unblock(b2)
             if szx == 7:
